@@ -1,4 +1,9 @@
 mod case;
+mod fals;
+mod gen_basic;
+mod gen_net;
+mod gen_net2;
+mod netgen;
 mod gen_tensor;
 mod rng;
 mod spec;
@@ -29,14 +34,33 @@ fn main() {
             let outdir = std::path::Path::new(&args[5]);
             std::fs::create_dir_all(outdir).unwrap();
             let mut rng = rng::Rng::new(seed ^ (prop.bytes().fold(0u64, |a, b| a * 131 + b as u64)));
-            let cases = match prop {
-                "C14" => gen_tensor::gen_c14(&mut rng, thorough),
-                "C15" => gen_tensor::gen_c15(&mut rng, thorough),
+            let release = !cfg!(debug_assertions);
+            let mut frng = rng::Rng::new(seed.wrapping_add(0x5EED) ^ (prop.bytes().fold(0u64, |a, b| a * 131 + b as u64)));
+            let (cases, fals) = match prop {
+                "C14" => (gen_tensor::gen_c14(&mut rng, thorough), fals::Fals::new()),
+                "C15" => (gen_tensor::gen_c15(&mut rng, thorough), fals::Fals::new()),
+                "C18" => (gen_basic::gen_c18(&mut rng, thorough, release), gen_basic::fals_c18(&mut frng, thorough, release)),
+                "C07" => (gen_basic::gen_c07(&mut rng, thorough), gen_basic::fals_c07(&mut frng, thorough)),
+                "C06" => (gen_basic::gen_c06(&mut rng, thorough), gen_basic::fals_c06(&mut frng, thorough)),
+                "C03" => (gen_basic::gen_c03(&mut rng, thorough), gen_basic::fals_c03(&mut frng, thorough)),
+                "C02" => (gen_net::gen_c02(&mut rng, thorough), fals::Fals::new()),
+                "C08" => (gen_net::gen_c08(&mut rng, thorough), fals::Fals::new()),
+                "C01" => (gen_net::gen_c01(&mut rng, thorough), fals::Fals::new()),
+                "C11" => (gen_net2::gen_c11(&mut rng, thorough), fals::Fals::new()),
+                "C10" => (gen_net2::gen_c10(&mut rng, thorough), fals::Fals::new()),
+                "C16" => (gen_net2::gen_c16(&mut rng, thorough), fals::Fals::new()),
+                "C17" => (gen_net2::gen_c17(&mut rng, thorough), fals::Fals::new()),
+                "C04" => (gen_net2::gen_c04(&mut rng, thorough), fals::Fals::new()),
+                "C13" => (gen_net2::gen_c13(&mut rng, thorough), fals::Fals::new()),
+                "C09" => (gen_net2::gen_c09(&mut rng, thorough), fals::Fals::new()),
+                "C12" => (gen_net2::gen_c12(&mut rng, thorough), fals::Fals::new()),
+                "C05" => (gen_net2::gen_c05(&mut rng, thorough), fals::Fals::new()),
                 _ => {
                     eprintln!("no generator for {}", prop);
                     std::process::exit(2)
                 }
             };
+            fals.write(&outdir.join("falsify.jsonl"));
             let mut fc = std::io::BufWriter::new(std::fs::File::create(outdir.join("cases.txt")).unwrap());
             let mut fi = std::io::BufWriter::new(std::fs::File::create(outdir.join("impl.txt")).unwrap());
             for (i, (tag, c)) in cases.iter().enumerate() {
